@@ -661,6 +661,52 @@ fn some_bin(g: &mut Gen, ascii: bool) -> Option<Vec<u8>> {
         }
     }
 }
+/// insert a space after every `:` and `,` and around the braces, outside string literals
+fn respace(j: &str) -> String {
+    let mut out = String::new();
+    let (mut in_str, mut esc) = (false, false);
+    for c in j.chars() {
+        out.push(c);
+        if in_str {
+            if esc {
+                esc = false;
+            } else if c == '\\' {
+                esc = true;
+            } else if c == '"' {
+                in_str = false;
+            }
+        } else if c == '"' {
+            in_str = true;
+        } else if c == ':' || c == ',' || c == '{' || c == '[' {
+            out.push(' ');
+        }
+    }
+    out
+}
+/// two different texts of the same JSON object
+fn json_equivalent_pair(g: &mut Gen) -> (Vec<u8>, Vec<u8>) {
+    const PAIRS: &[(&str, &str)] = &[
+        ("{\"a\":1,\"b\":2}", "{\"b\":2,\"a\":1}"),
+        ("{\"name\":\"xy\"}", "{\"name\":\"\\u0078y\"}"),
+        ("{\"a\":1}", "{\"a\":2,\"a\":1}"),
+        ("{\"a\":1}", "{\"a\":1,\"a\":1}"),
+        ("{\"n\":10}", "{\"n\":1e1}"),
+        ("{\"n\":1.0}", "{\"n\":1.00}"),
+        ("{\"s\":\"/\"}", "{\"s\":\"\\/\"}"),
+        ("{\"k\":[1,2,{\"z\":null}]}", "{\"k\":[1,2,{\"z\":null}]}\n"),
+        ("{}", "{ }"),
+        ("{\"\u{e9}\":true}", "{\"\\u00e9\":true}"),
+    ];
+    if g.chance(1, 3) {
+        let j = *g.pick(JSONS);
+        let r = respace(j);
+        if r != j && json_is_object(&Some(j.as_bytes().to_vec())) {
+            return (j.as_bytes().to_vec(), r.into_bytes());
+        }
+    }
+    let (x, y) = *g.pick(PAIRS);
+    (x.as_bytes().to_vec(), y.as_bytes().to_vec())
+}
 fn json_is_object(j: &Option<Vec<u8>>) -> bool {
     match j {
         None => true,
@@ -1063,7 +1109,7 @@ fn gen(seed: u64, n: usize, out: &str) {
         let signer = g.below(NKEYS);
         let spk = pubs[signer].clone();
         let kind = g.below(4);
-        match g.weighted(&[2, 8, 6, 4, 6, 2, 1, 1]) {
+        match g.weighted(&[2, 8, 6, 4, 6, 2, 1, 1, 3]) {
             0 => {
                 let a = random_row(&mut g, kind, false);
                 o.pair("same", &a, &a, signer, spk);
@@ -1186,6 +1232,22 @@ fn gen(seed: u64, n: usize, out: &str) {
                 };
                 o.pair("key", &a, &a, signer, bvk);
             }
+            8 => {
+                // `_json` texts that differ byte-wise but parse to the same JSON value (spacing, key order,
+                // \\u escapes, duplicated keys): the signature must bind the exact text
+                let mut a = random_row(&mut g, 0, false);
+                let (j1, j2) = json_equivalent_pair(&mut g);
+                let mut b = a.clone();
+                if let (Row::Node { json: ja, .. }, Row::Node { json: jb, .. }) = (&mut a, &mut b) {
+                    *ja = Some(j1);
+                    *jb = Some(j2);
+                }
+                if g.chance(1, 2) {
+                    o.pair("json-equiv", &a, &b, signer, spk);
+                } else {
+                    o.pair("json-equiv", &b, &a, signer, spk);
+                }
+            }
             7 => {
                 // the non-cryptographic checks in front of the digest: empty names, oversized reference
                 let pk = g.below(2);
@@ -1260,10 +1322,17 @@ fn main() {
     let a = Args::parse();
     match a.cmd.as_str() {
         "gen" => gen(a.u64_or("seed", 1), a.usize_or("n", 1000), &a.str_or("out", "cases.ops")),
-        "gen-oracle" => gen_oracle(a.u64_or("seed", 1), a.usize_or("n", 100), &a.str_or("out", "oracle.ops")),
+        "gen-oracle" => {
+            gen_oracle(a.u64_or("seed", 1), a.usize_or("n", 100), &a.str_or("out", "oracle.ops"));
+            unsafe { libc::_exit(0) }
+        }
         "run" => {
             let rt = tokio::runtime::Builder::new_current_thread().enable_all().build().unwrap();
             rt.block_on(run(&a.str_or("ops", "cases.ops"), &a.str_or("out", "impl.out"), a.get("stats")));
+            // everything is written and flushed: leave without the C library's exit handlers (they race with
+            // the database threads of the instance that are still alive)
+            std::mem::forget(rt);
+            unsafe { libc::_exit(0) }
         }
         _ => {
             eprintln!("usage: dv-digest gen|gen-oracle|run …");
